@@ -249,17 +249,19 @@ Definition is_pos (y : yv) : option Z :=
   match y with YNum z => if 0 <? z then Some z else None | YNone => None end.
 
 (* after next() raised StopIteration(v):
-   gen = popleft(); del _generators[gen]; _promises[gen].value = v; del _promises[gen] *)
+   gen = popleft(); del _generators[gen]; _kill_queue.discard(gen);
+   _promises[gen].value = v; del _promises[gen] *)
 Definition finish (s : st) (g : gid) (v : option Z) : st * bool :=
   let act := tl (active s) in
   match alookup g (gens s) with
   | None => (set_active s act, true)
   | Some _ =>
       let gn := adel g (gens s) in
+      let kq := remz g (killq s) in
       if memz g (proms s)
-      then (mkSt gn act (waitq s) (killq s) (remz g (proms s)) (aset g v (pv s))
+      then (mkSt gn act (waitq s) kq (remz g (proms s)) (aset g v (pv s))
                  (timer s) (nrid s) (pcs s) (gdone s), false)
-      else (mkSt gn act (waitq s) (killq s) (proms s) (pv s)
+      else (mkSt gn act (waitq s) kq (proms s) (pv s)
                  (timer s) (nrid s) (pcs s) (gdone s), true)
   end.
 
